@@ -1,4 +1,5 @@
 -- Root of the `PasslibVerif` library: everything that must build.
+import PasslibVerif.Props.C04
 import PasslibVerif.Props.C06
 import PasslibVerif.Props.C09
 import PasslibVerif.Props.C11
